@@ -168,6 +168,13 @@ ROUND10 = {
  "C20": "Failing probes also break off with a TCP reset; plus 2/6 cases on the REAL coordinator binary (--sd.init-timeout 6-8 s): a target that answers 503 for good must be probed again after the start-up window, a target added after it must be assigned.",
 }
 
+ROUND11 = {
+ "C04": "Every second real-process case has a collect[] param with two values that each add 700 samples to every answer (six targets that fit two per shard by their true sizes).",
+ "C13": "Plus 503 / connection error / administrative stop directly after an HTTP 500: the status must show the latest failure's error.",
+ "C19": "Hostile replicas include in-sync shards that refuse the target or extra-config update (a cycle that does not complete next to them is a violation).",
+ "C20": "The param cases have a configured param with three values that each select further series: every probe must carry all of them and the estimate must be that of the full exposition.",
+}
+
 NOT_YET = {
 }
 
@@ -196,7 +203,7 @@ def main():
             "evidence_file": "/verif/evidence/%s.json" % pid,
             "replay_cmd_template": "./bin/vcheck replay {path}",
             "engine": c["engine"],
-            "level_claimed": {"category": c["level"], "text": (c["text"] + " " + ROUND8.get(pid, "") + " " + ROUND9.get(pid, "") + " " + ROUND10.get(pid, "")).strip(), "design_ref": c["ref"]},
+            "level_claimed": {"category": c["level"], "text": (c["text"] + " " + ROUND8.get(pid, "") + " " + ROUND9.get(pid, "") + " " + ROUND10.get(pid, "") + " " + ROUND11.get(pid, "")).strip(), "design_ref": c["ref"]},
             "level_note": c["note"],
             "technique": c["technique"],
         })
